@@ -266,6 +266,19 @@ func outq(c *net.UnixConn) int {
 	return int(v)
 }
 
+// inq is the number of bytes queued for reading on c.
+func inq(c *net.UnixConn) int {
+	rc, err := c.SyscallConn()
+	if err != nil {
+		return 0
+	}
+	var v int32
+	rc.Control(func(fd uintptr) {
+		syscall.Syscall(syscall.SYS_IOCTL, fd, uintptr(syscall.TIOCINQ), uintptr(unsafe.Pointer(&v)))
+	})
+	return int(v)
+}
+
 func peekReadable(c *net.UnixConn) int {
 	rc, err := c.SyscallConn()
 	if err != nil {
@@ -547,7 +560,7 @@ func (r *run) sendBad(c int) error {
 	v := r.d.bad[r.d.badIdx%len(r.d.bad)]
 	r.d.badIdx++
 	r.out.Bad = append(r.out.Bad, badUse{v.Cls, v.Type, v.Declared, v.Carried, v.Size})
-	w0 := atomic.LoadInt64(&r.d.p.warns)
+	w0, in0 := atomic.LoadInt64(&r.d.p.warns), inq(conn)
 	conn.SetWriteDeadline(time.Now().Add(r.d.tmo))
 	if _, err := conn.Write(wireBytes(&v)); err != nil {
 		return err
@@ -566,7 +579,7 @@ func (r *run) sendBad(c int) error {
 			return nil
 		}
 		if outq(conn) == 0 {
-			if atomic.LoadInt64(&r.d.p.warns) > w0 || peekReadable(conn) >= 0 {
+			if atomic.LoadInt64(&r.d.p.warns) > w0 || inq(conn) > in0 || peekReadable(conn) == 0 {
 				return nil
 			}
 			select {
@@ -857,6 +870,8 @@ func (d *driver) replay(b *behIn) seqOut {
 				d.p.cmd.Process.Kill()
 			}
 		}
+		// signals raised during this run have all been handed over by now (the parent flushes before "ended")
+		r.pollTerms("the run was over")
 		// calls still queued belong to nobody
 		for {
 			select {
